@@ -68,15 +68,23 @@ def oracle(run):
     case = run["case"]
     v = []
     prev = run["initial"]
-    owned = set()
+    owned = {}
     for sp, st in case["stages"]:
         for p, fl in st.get("out", []):
-            owned.add(p)
+            owned[p] = fl
+
+    def is_owned(p):
+        for o, ofl in owned.items():
+            if p == o:
+                return True
+            if "d" in ofl and p.startswith(o + b"/") and ("r" not in ofl or b"/" not in p[len(o) + 1:]):
+                return True         # a non-recursive directory owns its direct children only
+        return False
     plain = []
     skipc = []
     for sp, st in case["stages"]:
         for p, fl in st.get("in", []):
-            if not any(p == o or p.startswith(o + b"/") for o in owned):
+            if not is_owned(p):
                 plain.append((p, fl))
         for p, fl in st.get("out", []):
             if "s" in fl:
